@@ -28,7 +28,11 @@ SPEC = {
                    "rehash probe place a pair at the first free slot from its home, so under the 15/16 load limit no pair sits in the "
                    "slot before its home, which is the only way the iterator can be restarted (for tables ALSO filled through "
                    "insert_or_replace that can happen - latent, observed only in the hook-level stream, no database map is used both "
-                   "ways). COUNTEREXAMPLE "
+                   "ways). REFINEMENT (MultiMap_refines, MultiMap_refines_values, C19_index_chain): on every index-multimap state the slot "
+                   "table is a multiset of pairs: len = #Valid; insert adds exactly the pair; remove_value removes exactly one stored "
+                   "(k,v) or nothing; remove_key leaves no pair of the key and touches no other; reserve / every rehash change no count; "
+                   "value/contains and values agree with the stored pairs (values as a set; multiplicities and insert_or_replace are not "
+                   "proved: MultiMap_refines_statement). COUNTEREXAMPLE "
                    "(C19_tombstone_counterexample): on the pinned code the 65th insert_or_replace after 64 insert/remove cycles "
                    "diverges for every fuel (general divergence lemma + decide +kernel fact about the reachable 64-tombstone table). "
                    "Tie: slot-level differential stream on the real MultiMapStorage<u64,u64> (hook H2-coll: per-op state/key/value dump, "
